@@ -278,11 +278,39 @@ func needFamily(r *hx.Rand) {
 		c, _ := strconv.ParseFloat(t, 64)
 		confs = append(confs, c)
 	}
+	// quarter steps of the exponent: every size 2..50 (and "> 50") occurs as the named one, in
+	// particular the last admissible size 50 (mutation sweep: loop bound `n <= limit`)
+	fine := map[float64]bool{}
+	for q := 4; q <= 184; q++ {
+		c := 1 - math.Exp2(-float64(q)/4)
+		if q%4 != 0 && c < 1 {
+			confs = append(confs, c)
+			fine[c] = true
+		}
+	}
 	for _, c := range confs {
 		if c >= 1 {
 			continue
 		}
 		op, n := benchmath.VerifMedianSamples(c)
+		if fine[c] {
+			hx.Printf("case %d kind=ms conf=%s need=%s tag=mediansamples+fine\n", id, raw(c), needTable(c))
+			hx.Printf("obs %d need=%s:%d\n", id, opName[op], n)
+			id++
+			seen := map[int]bool{}
+			for _, m := range []int{n - 1, n, 49, 50} {
+				if m < 1 || m > 70 || seen[m] || (m >= 49 && m != n && m != n-1 && n < 48) {
+					continue
+				}
+				seen[m] = true
+				xs := make([]float64, m)
+				for i := range xs {
+					xs[i] = float64(r.Intn(1000)) / 8
+				}
+				sumCase("nothing", xs, c, "nothing+need+fine")
+			}
+			continue
+		}
 		hx.Printf("case %d kind=ms conf=%s need=%s tag=mediansamples+high\n", id, raw(c), needTable(c))
 		hx.Printf("obs %d need=%s:%d\n", id, opName[op], n)
 		id++
@@ -440,7 +468,7 @@ func cmpCase(r *hx.Rand, a string, v1, v2 []float64, alpha float64, alphaEqP boo
 		id, a, list(v1), list(v2), raw(alpha), ext, raw(old), raw(new), raw(c.P), c.N1, c.N2, raw(c.Alpha), wt,
 		p21, psh, psc, k, hx.HexS(delta), hx.HexS(str), tag)
 	hx.Printf("obs %d p=%s n1=%d n2=%d alpha=%s warn=%s delta=%s str=%s\n", id, canon(c.P), c.N1, c.N2, canon(c.Alpha), wt, hx.HexS(delta), hx.HexS(str))
-	hx.Printf("sobs %d n=ok prange=ok sym=ok shuf=ok scale=ok exact=%s alpha=ok warn=ok shown=ok delta=ok str=ok\n", id, exact)
+	hx.Printf("sobs %d n=ok prange=ok sym=ok shuf=ok scale=ok exact=%s alpha=ok warn=ok errp=ok shown=ok delta=ok str=ok\n", id, exact)
 	id++
 }
 
